@@ -736,6 +736,102 @@ fn tangent_q<C: CvR<Q>>(sub: &mut Sub, cfg: &Config, idx: u64) {
     }
 }
 
+/// exact value tier: concrete rational curves (control points often coincident, the degenerate
+/// control polygons a symbolic trace never meets) at concrete parameters (exactly 0 and 1, inside,
+/// outside): evaluate, evaluate_derivative and split against the Bernstein form
+fn values_q<C: CvR<Q>>(sub: &mut Sub, cfg: &Config, idx: u64) {
+    let mut rng = Rng::for_case(&format!("values_q/{}", C::NAME), cfg.case_seed(), idx);
+    let (n, dim) = (C::DEG, C::DIM);
+    let mut pts: Vec<Vec<Q>> = (0..=n).map(|_| (0..dim).map(|_| small_q(&mut rng, 9, 4)).collect()).collect();
+    // coincident control points: handle on its end point, all equal, interior pair equal
+    match rng.below(8) {
+        0 => pts[1] = pts[0].clone(),
+        1 => pts[n - 1] = pts[n].clone(),
+        2 => {
+            for k in 1..=n {
+                pts[k] = pts[0].clone();
+            }
+        }
+        3 => {
+            pts[1] = pts[0].clone();
+            pts[n - 1] = pts[n].clone();
+        }
+        _ => {}
+    }
+    let t = match rng.below(8) {
+        0 => Q::ZERO,
+        1 => Q::ONE,
+        2 => Q::frac(1, 2),
+        3 => Q::frac(-rng.range_i64(1, 6), rng.range_i64(1, 4)),
+        4 => Q::ONE + Q::frac(rng.range_i64(1, 6), rng.range_i64(1, 4)),
+        _ => {
+            let d = rng.range_i64(2, 9);
+            Q::frac(rng.range_i64(1, d - 1), d)
+        }
+    };
+    let c = C::build(&mut |k, d| pts[k][d]);
+    let mut h = H64::new();
+    h.s(C::NAME).u(t.hash64());
+    for p in &pts {
+        for x in p {
+            h.u(x.hash64());
+        }
+    }
+    let desc = || format!("{} control points {:?}, t = {}", C::NAME, pts, t);
+    let mut fail: Option<(String, &'static str, String)> = None;
+    let mut set = |api: String, what: &'static str, msg: String| {
+        if fail.is_none() {
+            fail = Some((api, what, msg));
+        }
+    };
+    let api_e = format!("{}::evaluate", C::NAME);
+    let api_d = format!("{}::evaluate_derivative", C::NAME);
+    let api_s = format!("{}::split", C::NAME);
+    sub.saw(&api_e);
+    sub.saw(&api_d);
+    sub.saw(&api_s);
+    match guarded(|| (c.v_evaluate(t).to_vec(), c.v_derivative(t).to_vec(), c.v_split(t))) {
+        Err(e) => set(api_e.clone(), "panic", format!("panicked: {}", e)),
+        Ok((ev, dv, halves)) => {
+            let (be, bd) = (bern(&pts, t), bern_deriv(&pts, t));
+            if ev != be {
+                set(api_e.clone(), "value_differs_from_bernstein_form", format!("evaluate = {:?}, Bernstein form = {:?}", ev, be));
+            }
+            if dv != bd {
+                set(api_d.clone(), "derivative_differs_from_bernstein_derivative", format!("evaluate_derivative = {:?}, derivative of the Bernstein form = {:?}", dv, bd));
+            }
+            let (first, second) = (halves[0], halves[1]);
+            let fp: Vec<Vec<Q>> = (0..=n).map(|k| first.point(k).to_vec()).collect();
+            let sp: Vec<Vec<Q>> = (0..=n).map(|k| second.point(k).to_vec()).collect();
+            if fp[n] != be || sp[0] != be {
+                set(api_s.clone(), "halves_do_not_meet_at_the_curve_point", format!("first half ends at {:?}, second starts at {:?}, the curve point is {:?}", fp[n], sp[0], be));
+            }
+            for u in [Q::ZERO, Q::frac(1, 3), Q::ONE] {
+                let (a, b) = (bern(&fp, u), bern(&pts, t * u));
+                let (c2, d2) = (bern(&sp, u), bern(&pts, t + (Q::ONE - t) * u));
+                if a != b || c2 != d2 {
+                    set(api_s.clone(), "halves_do_not_reparametrize_the_curve", format!("u = {}: first half {:?} vs curve(t u) {:?}; second half {:?} vs curve(t + (1-t) u) {:?}", u, a, b, c2, d2));
+                }
+            }
+        }
+    }
+    if let Some(p) = take_poison() {
+        sub.inconclusive(&format!("poison:{}", p));
+        return;
+    }
+    match fail {
+        None => {
+            sub.sample(|| format!("{} [Q]: evaluate / evaluate_derivative / split agree with the Bernstein form", desc()));
+            sub.held(h.get(), pts.iter().any(|p| *p != pts[0]));
+        }
+        Some((api, what, msg)) => {
+            let class = if what == "panic" { "panic" } else { "wrong_value" };
+            let v = violation(PROP, sub, &api, "Q", class, what, format!("{}: {}", desc(), msg), cfg.case_seed(), idx);
+            sub.violated(v);
+        }
+    }
+}
+
 fn tangent_f64<C: CvR<f64>>(sub: &mut Sub, cfg: &Config, idx: u64) {
     let api = format!("{}::normalized_tangent", C::NAME);
     let mut rng = Rng::for_case(&format!("tangent_f64/{}", C::NAME), cfg.case_seed(), idx);
@@ -1015,6 +1111,22 @@ fn main() {
         rep.push(s);
     }
 
+    {
+        let nv = cfg.n(1_000, 100_000);
+        let proto = Sub::new(
+            "values_q",
+            "exact rationals: random control points, half of the curves with coincident control points (handle on its end point, all equal), parameter t from {0, 1, 1/2, inside, below 0, above 1}: evaluate == Bernstein form, evaluate_derivative == derivative of the Bernstein form, split halves meet at the curve point and re-parametrize the curve (u in {0, 1/3, 1}); non-trivial = control points not all equal; distinct by hash of control points and t",
+        )
+        .with_floor(nv * 2)
+        .require(&["QuadraticBezier2::evaluate", "CubicBezier3::evaluate_derivative", "CubicBezier2::split", "QuadraticBezier3::split"]);
+        let s = run_cases(&cfg, proto, nv, |s, i| {
+            values_q::<QuadraticBezier2<Q>>(s, &cfg, i);
+            values_q::<QuadraticBezier3<Q>>(s, &cfg, i);
+            values_q::<CubicBezier2<Q>>(s, &cfg, i);
+            values_q::<CubicBezier3<Q>>(s, &cfg, i);
+        });
+        rep.push(s);
+    }
     let nt = cfg.n(400, 40_000);
     {
         let proto = Sub::new(
